@@ -19,6 +19,7 @@ const hex = "0123456789abcdef"
 
 func (r *Runtime) builtinJSON_parse(call FunctionCall) Value {
 	d := json.NewDecoder(strings.NewReader(call.Argument(0).toString().String()))
+	d.UseNumber() // a float64 token is an error if the number is out of range
 
 	value, err := r.builtinJSON_decodeValue(d)
 	if errors.Is(err, io.EOF) {
@@ -60,8 +61,11 @@ func (r *Runtime) builtinJSON_decodeToken(d *json.Decoder, tok json.Token) (Valu
 		return _null, nil
 	case string:
 		return newStringValue(tok), nil
-	case float64:
-		return floatToValue(tok), nil
+	case json.Number:
+		f, err := strconv.ParseFloat(string(tok), 64)
+		if err == nil || isRangeErr(err) { // out of range: +-Infinity
+			return floatToValue(f), nil
+		}
 	case bool:
 		if tok {
 			return valueTrue, nil
